@@ -52,18 +52,25 @@ Obligations (one clause each):
 Not covered here: generated suites with random setup DAGs; lazy expansion interleaved with a real traversal (the expansion
 loop of traverse_object_trees is replayed by `parse_lazy` without running tests).
 """
+import atexit
 import itertools
 import json
 import logging
 import os
 import random
 import re
+import shutil
 import sys
+import tempfile
 import time
 
 REPO = os.environ.get("VERIF_REPO", "/repo")
 sys.path.insert(0, REPO)
 logging.disable(logging.CRITICAL)
+# avocado creates temporary directories on import/use: keep them in one private place that is removed at exit
+_TMP, _PID = tempfile.mkdtemp(prefix="graph_wf_"), os.getpid()
+os.environ["TMPDIR"] = tempfile.tempdir = _TMP
+atexit.register(lambda: os.getpid() == _PID and shutil.rmtree(_TMP, ignore_errors=True))
 
 from avocado_i2n import params_parser as param  # noqa: E402
 from avocado_i2n.cartgraph import TestGraph  # noqa: E402
